@@ -42,6 +42,10 @@ CHECKS = {
          "deterministic simulation with storage-corruption faults: a valid chunk written by the real writer on SimFS, its stored payload corrupted (torn, stale tail, bit flips, lost sector, misdirected block, random replacement, targeted header-field edits) between write and a fresh read; outcome oracle array-of-exact-shape | InvalidFormatError, 5 s watchdog",
          "Seeded search over encodings x data types x channels x shapes x block sizes x label distributions x storage kinds and 12-40 corruptions per valid chunk. Sampling of an exponential byte-string space, biased to format boundaries and header fields.",
          "Trusts the corruption generators' format knowledge (cseg header layout, JPEG SOF segment) only for *placing* edits; the oracle itself needs no format knowledge. Borderline applicability is discussed in DESIGN.md 2.2."),
+ "C14": ("exploration",
+         "deterministic simulation with fault injection: real requests/urllib3 stack on a simulated transport adapter and static-server model (documented nginx rules, Range, zero-range policy seeded); datasets produced by the real writers on SimFS; per-request seeded fault sequences (4xx/5xx, connection reset, timeout, dropped body, short / over-long / ignored range); equivalence with local reading",
+         "Seeded search over dataset kinds, sharding triples, subsets, URL spellings and server policies; class 1 compares every position over HTTP with the local accessor, class 2 injects 1-3 faults per fetch on learned request ordinals and requires exact bytes or an error of the stated class. Sampling, not proof.",
+         "Trusts the server model as a faithful reading of docs/serving-data.rst and RFC 7233, and the real requests/urllib3 response handling above the adapter seam. TLS, proxies, redirects, chunked transfer and stalls are not modelled."),
 }
 
 def main():
